@@ -7,7 +7,7 @@ for f in sorted(glob.glob('/verif/seeded/*/meta.json')):
     now="; ".join("%s %s"%(c,"DETECTED" if v["exit"]==1 else "silent") for c,v in m.get("checks_run_quick_tier",{}).items())
     rows.append((sid,m.get("needs_to_manifest","").replace("|","\\|"),m.get("first_run","").replace("|","\\|"),now,m.get("existing_suite_passes_with_patch")))
 def rnd(s):
-    return {"":1,"b":2,"c":3,"d":4,"e":5,"f":5,"g":6,"h":6,"i":7,"j":7,"k":8,"l":8}[s[3:]]
+    return {"":1,"b":2,"c":3,"d":4,"e":5,"f":5,"g":6,"h":6,"i":7,"j":7,"k":8,"l":8,"m":9,"n":9}[s[3:]]
 out=open('/verif/seeded/INDEX.md','w')
 out.write("""# Independently written property-breaking changes (`seeded/<id>/`)
 
@@ -32,20 +32,23 @@ moment and the other on an unusual input or combination of configuration options
 measured with the checks of the commit that preceded the round (8289a43), re-run against every patched tree, because several
 checks were extended while the validation of the round was still running. Round 8 (`C..k`, `C..l`, forty): as round 7;
 nothing was changed in /verif until every change of the round had been run against the checks as they stood (the sixteen
-misses were run a second time on a quiet machine before they were believed).
+misses were run a second time on a quiet machine before they were believed). Round 9 (`C..m`, `C..n`, forty): as round 8; the
+sub-agents were also asked to mention, without proving it, anything in the unchanged code they suspected of violating the
+property (DESIGN section 8: D18-D25 came out of those remarks). Patches are filed as written, against the tree of their round:
+five of them (C04e, C04h, C14d, C14k, C19i) touch lines a later `fix:` commit changed and do not apply to the current HEAD.
 
 `silent` marks a check that was run in addition and is not expected to fire (the clause the change
 breaks is decided by the other check listed), or - for C11b - the quick tier.
 
 """)
-for r in (1,2,3,4,5,6,7,8):
+for r in (1,2,3,4,5,6,7,8,9):
     out.write("## Round %d\n\n| id | what it needs to manifest | first run | now (quick tier) |\n|---|---|---|---|\n"%r)
     for sid,needs,first,now,suite in rows:
         if rnd(sid)==r:
             out.write("| %s | %s | %s | %s |\n"%(sid,needs,first,now))
     out.write("\n")
-tot={r:[0,0] for r in (1,2,3,4,5,6,7,8)}
+tot={r:[0,0] for r in (1,2,3,4,5,6,7,8,9)}
 for sid,needs,first,now,suite in rows:
     tot[rnd(sid)][0]+=1
     if first.startswith("DETECTED"): tot[rnd(sid)][1]+=1
-out.write("Detected by the checks as they stood / changes: "+", ".join("round %d: %d/%d"%(r,tot[r][1],tot[r][0]) for r in tot)+". Every miss led to a stronger check (see the `first run` column and DESIGN.md section 13); all are detected now except C11b (thorough-tier configuration only).\n")
+out.write("Detected by the checks as they stood / changes: "+", ".join("round %d: %d/%d"%(r,tot[r][1],tot[r][0]) for r in tot)+". Every miss led to a stronger check (see the `first run` column and DESIGN.md section 13); all are detected now except C11b (thorough-tier configuration only), C04m (manifests only during shutdown, outside the properties) and C16n (TLS branch of the statsd relay, not reachable through the harness' connection factory).\n")
